@@ -67,6 +67,9 @@ type ScriptCase struct {
 	// otherwise depend on timing); every delivery must return.
 	PreStart []model.Ev `json:"preStart,omitempty"`
 	Early    []model.Ev `json:"early,omitempty"`
+	// MockClock: the instance runs on a mock clock with the timer definition
+	// builder; stimuli of kind "clock" advance it.
+	MockClock bool `json:"mockClock,omitempty"`
 }
 
 // ScriptOutcome of a scripted run.
@@ -117,6 +120,13 @@ func applyModel(m *model.M, s Stim) (obs model.Obs, node string, ok bool) {
 		return m.Answer(pi, a), node, true
 	case "event":
 		return m.Event(*s.Ev), "", true
+	case "clock":
+		// the clock moved; Ev (if any) is the timer firing the generator
+		// computed to fall due at the new time
+		if s.Ev != nil {
+			return m.Event(*s.Ev), "", true
+		}
+		return model.Obs{}, "", true
 	}
 	return model.Obs{}, "", false
 }
@@ -175,7 +185,7 @@ func RunScript(c *ScriptCase) *ScriptOutcome {
 		perturb.Install(c.Perturb, 50, sites)
 		defer perturb.Remove()
 	}
-	in, err := New(out.XML, Options{Vars: c.Vars})
+	in, err := New(out.XML, Options{Vars: c.Vars, MockClock: c.MockClock})
 	if err != nil {
 		out.Symptom, out.Detail = "construct", err.Error()
 		return out
@@ -258,6 +268,9 @@ func RunScript(c *ScriptCase) *ScriptOutcome {
 		case "event":
 			ev := toEvent(*s.Ev)
 			go func() { in.P.ConsumeEvent(ev); close(done) }()
+		case "clock":
+			in.Clock.Add(time.Duration(s.ClockS) * time.Second)
+			close(done)
 		}
 		return done
 	}
